@@ -40,42 +40,7 @@ func c09World(t *testing.T, p c09Params) rt.Result {
 		}
 		var s *sess
 		if p.Reuse && p.Dir == "out" {
-			ps.IdleHold = time.Second
-			ndial := 0
-			w.DialPolicy = func(hz.DialReq) (hz.DialAction, time.Duration) {
-				ndial++
-				if ndial <= 2 {
-					return hz.DialAccept, 0
-				}
-				return hz.DialRefuse, 0
-			}
-			mon := w.MustAddPeer(ps)
-			c1 := w.WaitOut(1, time.Minute)
-			if c1 == nil || !c1.Handshake(ps.RemoteAS, 90, remoteIDu) {
-				w.Violate("reuse setup: first outbound session failed")
-				return
-			}
-			w.Settle()
-			c1.Close() // TCP close: no damping, the same FSM object dials again
-			c2 := w.WaitOut(2, time.Minute)
-			if c2 == nil {
-				w.Violate("reuse setup: no second outbound connection")
-				return
-			}
-			w.Settle()
-			s = &sess{w: w, mon: mon, rc: c2, ps: ps, dir: "out"}
-			if p.State != stOpenSent {
-				c2.SendOpen(c2.StdOpen(ps.RemoteAS, 90, remoteIDu))
-				w.Settle()
-			}
-			if p.State == stEstablished {
-				c2.SendKeepalive()
-				w.Settle()
-				if !mon.Up() {
-					w.Violate("reuse setup: second session did not establish")
-					return
-				}
-			}
+			s = bringReused(w, ps, p.State, 90)
 		} else {
 			s = bring(w, ps, p.Dir, p.State, 90)
 		}
